@@ -367,4 +367,51 @@ example : ((Node.new [translate (1 : Int) 2 3, scale 2 2 2]).run [.edit .reverse
     = ⟨⟨2, 0, 0, 2⟩, ⟨0, 2, 0, 4⟩, ⟨0, 0, 2, 6⟩, ⟨0, 0, 0, 1⟩⟩ := by decide
 example : ((Node.new [translate (1 : Int) 2 3]).step (.edit (.pop (some 5)))).2 = .indexError := by decide
 
+/-! ## several nodes: each owns its list and its matrix
+
+The theorems above follow ONE node.  A scene holds many; the implementation keeps `transforms` and `matrix` per object, so a
+history over several nodes is the product of per-node histories.  The check's "bystander" oracle (props/c13.py: the nodes
+around the target, and a sibling made without a transform list and edited before the case starts) is the tie of this
+frame to the real `Node` class — a list shared between nodes made with default arguments breaks exactly this. -/
+
+/-- the nodes of a scene, each with its own transform list; an operation is addressed to one of them -/
+def runScene (ns : List (Node R)) (h : List (Nat × Op R)) : List (Node R) :=
+  h.foldl (fun s io => s.modify io.1 (fun n => (n.step io.2).1)) ns
+
+/-- what one node went through: the operations addressed to it, in order -/
+def opsOf (j : Nat) (h : List (Nat × Op R)) : List (Op R) := (h.filter (fun io => io.1 == j)).map (·.2)
+
+/-- every history over several nodes projects onto per-node histories: node `j` ends exactly where its own operations
+    take it — an edit or save of one node never shows in another (each node owns its list and its matrix) -/
+theorem scene_projection (ns : List (Node R)) (h : List (Nat × Op R)) (j : Nat) :
+    (runScene ns h)[j]? = ns[j]?.map (fun n => n.run (opsOf j h)) := by
+  induction h generalizing ns with
+  | nil => simp [runScene, opsOf, Node.run]
+  | cons io rest ih =>
+    have : runScene ns (io :: rest) = runScene (ns.modify io.1 (fun n => (n.step io.2).1)) rest := rfl
+    rw [this, ih]
+    by_cases hij : io.1 = j
+    · subst hij
+      simp [opsOf, List.getElem?_modify_eq, Node.run, Option.map_map, Function.comp_def]
+    · have hne : (io.1 == j) = false := by simpa using hij
+      simp [opsOf, List.getElem?_modify_ne _ _ hij, hne]
+
+/-- in particular a node nobody addressed is what it was, and its matrix after any number of saves elsewhere is still
+    the product of its own list whenever it was before -/
+theorem untouched_node (ns : List (Node R)) (h : List (Nat × Op R)) (j : Nat) (hj : ∀ io ∈ h, io.1 ≠ j) :
+    (runScene ns h)[j]? = ns[j]? := by
+  rw [scene_projection]
+  have : opsOf j h = [] := by
+    simp only [opsOf, List.map_eq_nil_iff, List.filter_eq_nil_iff]
+    intro io hio
+    simpa using hj io hio
+  rw [this]
+  cases ns[j]? <;> simp [Node.run]
+
+example : (runScene [Node.new [translate (1 : Int) 2 3], Node.new []]
+    [(0, Op.edit (.append (scale 2 2 2))), (0, Op.save)])[1]? = some (Node.new []) := by
+  rw [untouched_node]
+  · rfl
+  · intro io hio; simp at hio; rcases hio with rfl | rfl <;> simp
+
 end Pyc.Props.C13
